@@ -929,6 +929,10 @@ func main() {
 		replay(os.Args[2:])
 	case "random":
 		random(os.Args[2:])
+	case "bufreplay": // buf.go: caller-owned buffers (SpanBuf.tla)
+		bufReplay(os.Args[2:])
+	case "bufrandom":
+		bufRandom(os.Args[2:])
 	default:
 		os.Exit(3)
 	}
